@@ -1,5 +1,8 @@
 mod alloc;
 mod c01;
+mod c04;
+mod faults;
+mod io;
 mod choices;
 mod engine;
 mod gen;
